@@ -52,7 +52,7 @@ CHECKS = {
  "C14": ("model_checking",
   "frame clause over every transition of an explicit-state BFS (stores and sketches) + differential twin world running the same history without its read-only operations; copy = original",
   "Bounded histories interleaving mutations with every read-only operation and with copies, on all five store kinds and both sketch variants; across every transition the observation of each slot the operation may not write must be identical before and after, a fresh copy must be observed identical to its original, and a twin world that executes the same history without its read-only operations (queries, complete and early-stopped iterations, encodings, protobuf conversions, copies) must be observed identical in every state, so a read leaves no trace in any explored future. Copies of objects whose totals have rounded (all sequences of <= 3 (4) additions with non-dyadic weights, each store kind, both sketch variants) are compared with their originals to the last bit.",
-  "Trusted: the canonical observation and the per-operation write sets. Not covered: histories deeper than the bound.",
+  "Trusted: the canonical observation and the per-operation write sets. Not covered: histories deeper than the bound. One recorded finding (KNOWN_FINDINGS.txt, DESIGN.md section 6): on the paginated store Encode changes the last bits of GetCount when bin weights are not dyadic; printed as KNOWN-FINDING by both tiers.",
   "DESIGN.md section 4 C14"),
  "C15": ("model_checking",
   "differential BFS: main world vs twin world in which Clear = replace by new object; key includes both dumps",
